@@ -50,7 +50,9 @@ var c03Words = []string{"alpha", "beta", "a1b2", "xyz", "hello", "w0rld", "11", 
 func (g *c03gen) word() string { return g.r.Pick(c03Words) }
 
 func (g *c03gen) filter() string {
-	switch g.r.Intn(12) {
+	switch g.r.Intn(13) {
+	case 11: // a stage that ignores its stdin: it can finish before the stage feeding it has even written
+		return "out " + g.word()
 	case 0:
 		return "regexp s/a/A/"
 	case 1:
@@ -103,6 +105,11 @@ func (g *c03gen) source(inFunc bool) string {
 		}
 		return "out " + g.word()
 	default:
+		if !inFunc && g.r.Intn(3) == 0 {
+			// a pipeline head that reports on stderr and writes nothing to the pipe: the next statement
+			// must still not start before this one has finished
+			return "err E" + g.word()
+		}
 		return fmt.Sprintf("out \"%s %s\"", g.word(), g.word())
 	}
 }
@@ -268,6 +275,19 @@ func (g *c03gen) block(depth int, inFunc bool, n int) []pnode {
 	return out
 }
 
+// c03Markers: the subsequence of stderr lines written by the generator's `err <word>` commands
+func c03Markers(stderr string) string {
+	var out []string
+	for _, l := range strings.Split(stderr, "\n") {
+		for _, w := range c03Words {
+			if l == "E"+w {
+				out = append(out, l)
+			}
+		}
+	}
+	return strings.Join(out, "\n")
+}
+
 var c03ReRange = regexp.MustCompile(`\[1\.\.(\d+)\]`)
 var c03ReCall = regexp.MustCompile(`f(\d+) `)
 
@@ -366,7 +386,7 @@ func printNode(b *strings.Builder, n pnode, indent string) {
 	case "out":
 		b.WriteString("out " + n.S)
 	case "err":
-		b.WriteString("err " + n.S)
+		b.WriteString("err E" + n.S)
 	case "ok":
 		b.WriteString("out ok")
 	case "fail":
@@ -472,9 +492,11 @@ func runC03(c *Case, e *Env) Outcome {
 		switch {
 		case got.Out != first.Out:
 			return violation("stdout-differs", "program:\n%s\n%s: stdout %q\n%s: stdout %q", src, firstDesc, first.Out, desc, got.Out)
-		case got.Err != first.Err && sortedLines(got.Err) == sortedLines(first.Err):
+		case got.Err != first.Err && sortedLines(got.Err) == sortedLines(first.Err) && c03Markers(got.Err) == c03Markers(first.Err):
 			// same lines in another order: two stages of one pipeline both reported on stderr, which is
-			// inherently unordered (like `err a | err b`); not a statement violation
+			// inherently unordered (like `err a | err b`); not a statement violation. The generator's own
+			// `err <word>` lines are different: at most one command per pipeline writes them (a standalone
+			// statement or a pipeline head), so their order is the order of the statements and must not move.
 			e.Probe("stderr-interleaving-only")
 		case got.Err != first.Err:
 			return violation("stderr-differs", "program:\n%s\n%s: stderr %q\n%s: stderr %q", src, firstDesc, first.Err, desc, got.Err)
